@@ -52,6 +52,9 @@ def play(rng, bind_mode, n_msgs, horizon, stale_probe=False, unbind_race=False):
         src = PhoneNumber('38591', TON.INTERNATIONAL, NPI.ISDN)
         bind_delay = 2.5 if stale_probe else rng.choice([0.0, 0.5, 2.5])
         drop_first_at = rng.choice([None, None, 3.3, 7.7])
+        # one session in five: the bind response on the first or second connection has the right command id and an unparsable body
+        bad_bind_conn = rng.choice([0, 1]) if rng.random() < 0.2 and not stale_probe else None
+        obs['bad_bind_conn'] = bad_bind_conn
         inbound_seq = [1000]
 
         def on_pdu(conn, pdu):
@@ -62,7 +65,18 @@ def play(rng, bind_mode, n_msgs, horizon, stale_probe=False, unbind_race=False):
                 if cmd in (1, 2, 9):
                     def answer(conn=conn, p=p):
                         log.append(('bind_resp', conn.index, b'', loop.time()))
-                        conn.send(vsess.bind_resp_for(p))
+                        if conn.index == bad_bind_conn:
+                            # the right command id, a body that cannot be parsed: the PDU is read all the same and must reach the hook (raw)
+                            body = rng.choice([b'A' * 22 + b'\x00', b'sm\xffsc\x00', b'SMSC'])
+                            br = struct.pack('>IIII', 16 + len(body), cmd | 0x80000000, 0, seq) + body
+                            if conn.closed_at is None:
+                                log.append(('bind_fed', conn.index, br, loop.time()))
+                                conn.send(br)
+                            return
+                        br = vsess.bind_resp_for(p)
+                        if conn.closed_at is None:
+                            log.append(('bind_fed', conn.index, br, loop.time()))
+                        conn.send(br)
                         # inbound traffic on this connection
                         for k in range(0 if (stale_probe and conn.index == 0) else rng.choice([0, 2, 4])):
                             inbound_seq[0] += 1
@@ -220,6 +234,15 @@ def oracle(obs, bind_mode):
                 later = [x for x in log if x[0] == 'fed' and x[1] == e[1] and x[3] > e[3] and rec.count(x[2]) > 0]
                 if later:
                     return f'inbound PDU {e[2][:16].hex()} was never handed to the received hook although the connection stayed in use'
+    # (b') the bind response is read by connect() itself: it, too, is handed over exactly once
+    for e in log:
+        if e[0] == 'bind_fed':
+            k = rec.count(e[2])
+            if k > 1:
+                return f'bind response {e[2][:16].hex()} on connection {e[1]} handed to the received hook {k} times'
+            wrote_later = any(x[0] == 'write' and x[1] == e[1] and x[3] > e[3] for x in log)
+            if k == 0 and (wrote_later or e[1] == obs.get('bad_bind_conn')):
+                return f'bind response {e[2].hex()[:60]} on connection {e[1]} was read but never handed to the received hook'
     # (e) state corresponds to the mode whenever the session is bound
     for t, st, bound in obs['states']:
         if bound and st not in (BOUND_STATE[bind_mode], 5):
